@@ -1343,7 +1343,7 @@ Section View.
   Proof. reflexivity. Qed.
 
   Lemma scons_W_idem : forall Z, scons VW (scons VW Z) = scons VW Z.
-  Proof. intros [|[|n] Z]; reflexivity. Qed.
+  Proof. intros [|[|n|c] Z]; reflexivity. Qed.
 
   (* Z "absorbs" a separator: it is empty or starts with one *)
   Definition absorbs (Z : list vtok) : Prop := scons VW Z = Z.
@@ -1441,7 +1441,7 @@ Section View.
   Proof. intro t. change (l002_fix t) with (per_line l002_fix_line t). apply cview_per_line. exact l002_line_ok. Qed.
 
   Lemma strip_lead_scons : forall X, strip_lead (scons VW X) = strip_lead X.
-  Proof. intros [|[|n] X]; reflexivity. Qed.
+  Proof. intros [|[|n|c] X]; reflexivity. Qed.
 
   Lemma RL_cons_abs : forall x r Z, absorbs Z -> RL (x :: r) Z = R x (scons VW (RL r Z)).
   Proof. intros x [|y r] Z HZ; [cbn [RL]; unfold absorbs in HZ; rewrite HZ; reflexivity|reflexivity]. Qed.
@@ -1664,3 +1664,637 @@ Section CliView.
 
   (* the ink is determined by the reading when case is folded; for the CLI loop both conservation laws combine *)
 End CliView.
+
+(* ------------------------------------------------------------------------------------------------ *)
+(* the lexical reading of a text without literals and comments is its reading as code *)
+
+Section Plain.
+  Variable is_space : N -> bool.
+  Variable upper_ascii : N -> option N.
+
+  Lemma R2_plain : forall l cls Z, length cls = length l -> forallb (fun k => k =? 0) cls = true ->
+    R2 is_space upper_ascii cls l Z = R is_space upper_ascii l Z.
+  Proof.
+    induction l as [|c t IH]; intros cls Z Hl H; destruct cls as [|k ks]; try discriminate; [reflexivity|].
+    cbn in H. apply andb_prop in H. destruct H as [H1 H2]. cbn [R2]. rewrite H1.
+    rewrite IH; [reflexivity|cbn in Hl; lia|exact H2].
+  Qed.
+
+  Lemma lex_length : forall l st, length (lex st l) = length l.
+  Proof.
+    induction l as [|c t IH]; intro st; [reflexivity|]. cbn [lex].
+    destruct st; repeat match goal with |- context [if ?b then _ else _] => destruct b end; cbn [length]; rewrite IH; reflexivity.
+  Qed.
+
+  Lemma reading_plain : forall t, plain t = true -> reading is_space upper_ascii t = cview is_space upper_ascii t.
+  Proof.
+    intros t H. unfold reading, cview. rewrite R2_plain; [reflexivity|apply lex_length|exact H].
+  Qed.
+
+  (* the partial form of the preservation statement: for texts that contain no literal, quoted identifier or
+     comment, before and after the rewrite *)
+  Lemma preserved_partial : forall (F : list ch -> list ch),
+    (forall t, cview is_space upper_ascii (F t) = cview is_space upper_ascii t) ->
+    forall t, plain t = true -> plain (F t) = true -> reading is_space upper_ascii (F t) = reading is_space upper_ascii t.
+  Proof.
+    intros F HF t H1 H2. rewrite (reading_plain t H1), (reading_plain (F t) H2). apply HF.
+  Qed.
+End Plain.
+
+(* ------------------------------------------------------------------------------------------------ *)
+(* formatSQL converges: formatting the formatted text changes nothing *)
+
+Section FormatIdem.
+  Variable is_space : N -> bool.
+  Variable upper_ascii : N -> option N.
+  (* facts about the table: space, tab and newline are spaces *)
+  Hypothesis sp32 : is_space 32 = true.
+  Hypothesis sp9 : is_space 9 = true.
+  Hypothesis sp10 : is_space 10 = true.
+
+  Notation sp := (spacec is_space).
+  Notation tsp := (trim_space is_space).
+
+  Lemma blank_sp : forall c, is_blank c = true -> sp c = true.
+  Proof.
+    intros c H. unfold spacec. unfold is_blank, is_sp, is_tab in H. apply orb_prop in H.
+    destruct H as [H|H]; apply N.eqb_eq in H; rewrite H; assumption.
+  Qed.
+  Lemma nl_sp : forall c, is_nl c = true -> sp c = true.
+  Proof. intros c H. apply is_nl_eq in H. subst. exact sp10. Qed.
+
+  Lemma trim_r_prefix_head : forall {A} (p : A -> bool) l c t, trim_r p l = c :: t -> exists t', l = c :: t'.
+  Proof.
+    intros A p l c t H. destruct (trim_r_split p l) as (b & E & _). rewrite H in E. exists (t ++ b). exact E.
+  Qed.
+
+  Lemma tsp_idem : forall l, tsp (tsp l) = tsp l.
+  Proof.
+    intro l. unfold trim_space. set (X := trim_l sp l). destruct (trim_r sp X) as [|c t] eqn:E; [reflexivity|].
+    destruct (trim_r_prefix_head sp X c t E) as (t' & EX).
+    assert (Hc : sp c = false) by (eapply trim_l_head; unfold X in EX; exact EX).
+    rewrite trim_l_stop by exact Hc. rewrite <- E. apply trim_r_idem.
+  Qed.
+
+  Lemma tsp_app_lead : forall a l, forallb sp a = true -> tsp (a ++ tsp l) = tsp l.
+  Proof.
+    intros a l H. unfold trim_space at 1. rewrite trim_l_app_all by exact H. fold (tsp (tsp l)). apply tsp_idem.
+  Qed.
+
+  Lemma ends_nl_lastc : forall l, ends_nl l = match lastc l with Some c => is_nl c | None => false end.
+  Proof.
+    intro l. unfold ends_nl. induction l as [|c t IH]; [reflexivity|]. destruct t as [|d t]; [reflexivity|].
+    rewrite lastc_cons by discriminate. rewrite <- IH. cbn [rev]. destruct (rev t ++ [d]) as [|e r] eqn:E.
+    - destruct (rev t); discriminate.
+    - reflexivity.
+  Qed.
+
+  Lemma lastc_none : forall {A} (l : list A), lastc l = None -> l = [].
+  Proof.
+    intros A. induction l as [|c t IH]; intro H; [reflexivity|]. destruct t as [|d t]; [discriminate|].
+    rewrite lastc_cons in H by discriminate. apply IH in H. discriminate.
+  Qed.
+
+  Lemma lastc_tsp_not_sp : forall l c, lastc (tsp l) = Some c -> sp c = false.
+  Proof. intros l c H. unfold trim_space in H. eapply lastc_trim_r. exact H. Qed.
+
+  (* the lines formatSQL emits *)
+  Definition fl := fmt_lines is_space upper_ascii.
+
+  Lemma fmt_fixed : forall ind ls cur, forallb is_blank ind = true -> forallb is_blank cur = true ->
+    fl ind cur (fl ind cur ls) = fl ind cur ls.
+  Proof.
+    intros ind. induction ls as [|x r IH]; intros cur Hi Hc; [reflexivity|].
+    unfold fl in *. cbn [fmt_lines]. destruct (trim_space is_space x) as [|c tr] eqn:E; [apply IH; assumption|].
+    set (cur' := fmt_next_indent upper_ascii ind cur (c :: tr)).
+    assert (Hc' : forallb is_blank cur' = true) by (apply fmt_next_blank; assumption).
+    cbn [fmt_lines]. rewrite <- E. rewrite tsp_app_lead.
+    - rewrite E. fold cur'. f_equal. apply IH; assumption.
+    - apply forallb_forall. intros y Hy. apply blank_sp. rewrite forallb_forall in Hc'. apply Hc'. exact Hy.
+  Qed.
+
+  Lemma fmt_app : forall ind a b cur, exists cur2, fl ind cur (a ++ b) = fl ind cur a ++ fl ind cur2 b.
+  Proof.
+    intros ind. induction a as [|x a IH]; intros b cur; [exists cur; reflexivity|].
+    unfold fl in *. cbn [app fmt_lines]. destruct (trim_space is_space x) as [|c tr]; [apply IH|].
+    destruct (IH b (fmt_next_indent upper_ascii ind cur (c :: tr))) as (c2 & E). exists c2. rewrite E. reflexivity.
+  Qed.
+
+  Lemma fmt_no_nl : forall ind ls cur, forallb is_blank ind = true -> forallb is_blank cur = true -> Forall no_nl ls ->
+    Forall no_nl (fl ind cur ls).
+  Proof.
+    intros ind. induction ls as [|x r IH]; intros cur Hi Hc Hall; [constructor|].
+    inversion Hall as [|? ? Hx Hr]; subst. unfold fl in *. cbn [fmt_lines].
+    destruct (trim_space is_space x) as [|c tr] eqn:E; [apply IH; assumption|].
+    set (cur' := fmt_next_indent upper_ascii ind cur (c :: tr)).
+    assert (Hc' : forallb is_blank cur' = true) by (apply fmt_next_blank; assumption).
+    constructor; [|apply IH; assumption].
+    intros y Hy. apply in_app_or in Hy. destruct Hy as [Hy|Hy].
+    - rewrite forallb_forall in Hc'. specialize (Hc' y Hy). destruct (is_nl y) eqn:En; [|reflexivity].
+      apply is_nl_eq in En. subst. vm_compute in Hc'. discriminate Hc'.
+    - apply Hx. rewrite <- E in Hy. unfold trim_space in Hy. apply trim_r_incl in Hy. apply trim_l_incl in Hy. exact Hy.
+  Qed.
+
+  (* every emitted line ends in a character that is not a space *)
+  Lemma fmt_last : forall ind ls cur l, In l (fl ind cur ls) -> exists c, lastc l = Some c /\ sp c = false.
+  Proof.
+    intros ind. induction ls as [|x r IH]; intros cur l H; [destruct H|].
+    unfold fl in *. cbn [fmt_lines] in H. destruct (trim_space is_space x) as [|c tr] eqn:E; [eapply IH; exact H|].
+    destruct H as [H|H]; [|eapply IH; exact H]. subst.
+    rewrite lastc_app by discriminate. destruct (lastc (c :: tr)) as [d|] eqn:Ed.
+    - exists d. split; [reflexivity|]. rewrite <- E in Ed. eapply lastc_tsp_not_sp. exact Ed.
+    - apply lastc_none in Ed. discriminate.
+  Qed.
+
+  Lemma lastc_join : forall ls l, lastc ls = Some l -> l <> [] -> lastc (join_nl ls) = lastc l.
+  Proof.
+    induction ls as [|x r IH]; intros l H Hne; [discriminate|]. destruct r as [|y r].
+    - inversion H; subst. reflexivity.
+    - rewrite lastc_cons in H by discriminate. rewrite join_cons2.
+      change (x ++ nlc :: join_nl (y :: r)) with (x ++ [nlc] ++ join_nl (y :: r)). rewrite app_assoc.
+      rewrite lastc_app; [apply IH; assumption|].
+      intro E. assert (Hl : lastc (join_nl (y :: r)) = lastc l) by (apply IH; assumption). rewrite E in Hl.
+      symmetry in Hl. apply lastc_none in Hl. contradiction.
+  Qed.
+
+  Lemma lastc_some_in : forall {A} (l : list A), l <> [] -> exists x, lastc l = Some x.
+  Proof.
+    intros A. induction l as [|c t IH]; intro H; [contradiction|]. destruct t as [|d t]; [exists c; reflexivity|].
+    rewrite lastc_cons by discriminate. apply IH. discriminate.
+  Qed.
+
+  Lemma split_join_nl : forall ls, ls <> [] -> Forall no_nl ls -> split_nl (join_nl ls ++ [nlc]) = ls ++ [[]].
+  Proof.
+    induction ls as [|x r IH]; intros Hne Hall; [contradiction|]. inversion Hall as [|? ? Hx Hr]; subst.
+    destruct r as [|y r].
+    - cbn [join_nl app]. rewrite split_app_line by exact Hx. reflexivity.
+    - rewrite join_cons2. rewrite <- app_assoc. cbn [app]. rewrite split_app_line by exact Hx.
+      cbn [app]. f_equal. apply IH; [discriminate|exact Hr].
+  Qed.
+
+  Theorem format_idempotent : forall tab spaces final t,
+    format_sql is_space upper_ascii tab spaces final (format_sql is_space upper_ascii tab spaces final t)
+    = format_sql is_space upper_ascii tab spaces final t.
+  Proof.
+    intros tab spaces final t. unfold format_sql.
+    set (ind := if spaces then repeat spc tab else [asc 9]).
+    assert (Hi : forallb is_blank ind = true).
+    { unfold ind. destruct spaces; [|reflexivity]. induction tab as [|n IH]; [reflexivity|cbn; exact IH]. }
+    fold (fl ind [] (split_nl t)). set (L := fl ind [] (split_nl t)).
+    assert (HL : Forall no_nl L) by (apply fmt_no_nl; [exact Hi|reflexivity|apply split_no_nl]).
+    assert (HLL : fl ind [] L = L) by (apply fmt_fixed; [exact Hi|reflexivity]).
+    destruct L as [|l0 L0] eqn:EL.
+    - (* no line at all *)
+      cbn [join_nl ends_nl rev negb]. rewrite andb_true_r. destruct final; cbn [app].
+      + cbn. reflexivity.
+      + cbn. reflexivity.
+    - assert (Hne : l0 :: L0 <> []) by discriminate.
+      assert (He : ends_nl (join_nl (l0 :: L0)) = false).
+      { rewrite ends_nl_lastc. destruct (lastc_some_in (l0 :: L0) Hne) as (l & Hl).
+        destruct (fmt_last ind (split_nl t) [] l) as (c & Hc & Hs); [fold L; rewrite EL; apply lastc_in; exact Hl|].
+        rewrite (lastc_join _ l Hl) by (intro E; subst; discriminate). rewrite Hc.
+        destruct (is_nl c) eqn:En; [|reflexivity]. apply nl_sp in En. congruence. }
+      rewrite He. rewrite andb_true_r. destruct final.
+      + rewrite split_join_nl by assumption. destruct (fmt_app ind (l0 :: L0) [[]] []) as (c2 & E).
+        fold (fl ind [] ((l0 :: L0) ++ [[]])). rewrite E. rewrite HLL. unfold fl at 2. cbn [fmt_lines trim_space trim_l trim_r].
+        rewrite !app_nil_r. rewrite He. reflexivity.
+      + rewrite split_join by assumption. fold (fl ind [] (l0 :: L0)). rewrite HLL. rewrite He. reflexivity.
+  Qed.
+End FormatIdem.
+
+(* ------------------------------------------------------------------------------------------------ *)
+(* the CLI loop converges: its output is a fixed point of every one of the five fixers *)
+
+Section Pipeline.
+  Variables is_letter is_digit is_space : N -> bool.
+  Variable upper_ascii : N -> option N.
+  Variable keywords : list (list N).
+  Hypothesis up_letter : forall x u, upper_ascii x = Some u -> is_letter u = true.
+  Hypothesis up_noquote : forall x u, upper_ascii x = Some u -> u <> 39 /\ u <> 34 /\ u <> 10.
+  Hypothesis up_idem : forall x u, upper_ascii x = Some u -> upper_ascii u = Some u.
+  Hypothesis up_nows : forall x u, upper_ascii x = Some u -> is_space x = false /\ x <> 32 /\ x <> 9 /\ x <> 10.
+  Hypothesis up_keynoquote : forall x u, upper_ascii x = Some u -> x <> 39 /\ x <> 34.
+  Hypothesis sp32 : is_space 32 = true.
+  Hypothesis sp9 : is_space 9 = true.
+  Hypothesis sp10 : is_space 10 = true.
+
+  Notation f1 := l001_fix_line.
+  Notation f2 := l002_fix_line.
+  Notation f10 := l010_fix_line.
+  Notation f7 := (l007_fix_line is_letter is_digit upper_ascii keywords).
+  Notation wsc := (wsc is_space).
+  Notation blank := (blank_line is_space).
+
+  (* ---------- stability of a line under the line rewriters ---------- *)
+  Definition S1 (l : list ch) : Prop := match lastc l with Some c => is_blank c = false | None => True end.
+  Definition S2 (l : list ch) : Prop := existsb is_tab (take_l is_blank l) = false.
+
+  Lemma S1_fixed : forall l, S1 l -> f1 l = l.
+  Proof.
+    unfold l001_fix_line. induction l as [|c t IH]; intro H; [reflexivity|]. rewrite trim_r_cons.
+    destruct t as [|d t].
+    - cbn [trim_r]. unfold S1 in H. cbn in H. rewrite H. reflexivity.
+    - assert (Ht : S1 (d :: t)) by (unfold S1 in *; rewrite lastc_cons in H by discriminate; exact H).
+      rewrite (IH Ht). reflexivity.
+  Qed.
+
+  Lemma f1_S1 : forall l, S1 (f1 l).
+  Proof.
+    intro l. unfold S1, l001_fix_line. destruct (lastc (trim_r is_blank l)) as [c|] eqn:E; [|exact I].
+    eapply lastc_trim_r. exact E.
+  Qed.
+
+  Lemma S2_fixed : forall l, S2 l -> f2 l = l.
+  Proof.
+    intros l H. rewrite l002_line_shape. rewrite <- (take_trim_l is_blank l) at 3. f_equal.
+    apply flat_map_tab4_notab. unfold S2 in H. clear -H. induction (take_l is_blank l) as [|c t IH]; [reflexivity|].
+    cbn in *. apply orb_false_elim in H. destruct H as [H1 H2]. rewrite H1. cbn. apply IH. exact H2.
+  Qed.
+
+  Lemma f2_S2 : forall l, S2 (f2 l).
+  Proof. intro l. apply l002_fixed_leading. Qed.
+
+  Lemma lastc_app_ne : forall {A} (a b : list A), b <> [] -> lastc (a ++ b) = lastc b.
+  Proof. intros. apply lastc_app. assumption. Qed.
+
+  Lemma all_blank_S1_nil : forall l, forallb is_blank l = true -> S1 l -> l = [].
+  Proof.
+    intros l Hb H. destruct (lastc l) as [c|] eqn:E.
+    - unfold S1 in H. rewrite E in H. apply lastc_in in E. rewrite forallb_forall in Hb. rewrite (Hb c E) in H. discriminate.
+    - apply lastc_none. exact E.
+  Qed.
+
+  (* (a) the indentation rule keeps "no trailing blank" *)
+  Lemma f2_keeps_S1 : forall l, S1 l -> S1 (f2 l).
+  Proof.
+    intros l H. rewrite l002_line_shape. destruct (trim_l is_blank l) as [|c r] eqn:E.
+    - apply trim_l_nil_iff in E. rewrite (all_blank_S1_nil l E H). exact I.
+    - unfold S1. rewrite lastc_app_ne by discriminate. rewrite <- E.
+      unfold S1 in H. rewrite <- (take_trim_l is_blank l) in H. rewrite lastc_app_ne in H by (rewrite E; discriminate). exact H.
+  Qed.
+
+  (* ---------- L010 ---------- *)
+  Lemma scan10_last : forall l q ps c, lastc l = Some c -> is_sp c = false -> lastc (l010_scan q ps l) = Some (wr c).
+  Proof.
+    induction l as [|d t IH]; intros q ps c H Hs; [discriminate|]. destruct t as [|e t0] eqn:Et.
+    - inversion H; subst. cbn [l010_scan]. destruct q; [reflexivity|]. destruct (is_quote c); [reflexivity|]. rewrite Hs. reflexivity.
+    - rewrite lastc_cons in H by discriminate. rewrite <- Et in *. clear Et.
+      assert (G : forall q' ps' x, lastc (x ++ l010_scan q' ps' t) = Some (wr c)).
+      { intros q' ps' x. rewrite lastc_app_ne; [apply IH; assumption|].
+        intro En. specialize (IH q' ps' c H Hs). rewrite En in IH. discriminate. }
+      cbn [l010_scan]. destruct q as [k|]; [apply (G _ _ [wr d])|].
+      destruct (is_quote d); [apply (G _ _ [wr d])|]. destruct (is_sp d).
+      + destruct ps; [apply (G _ _ [])|apply (G _ _ [wr d])].
+      + apply (G _ _ [wr d]).
+  Qed.
+
+  Lemma not_blank_not_sp : forall c, is_blank c = false -> is_sp c = false.
+  Proof. intros c H. unfold is_blank in H. apply orb_false_elim in H. tauto. Qed.
+
+  Lemma f10_keeps_S1 : forall l, S1 l -> S1 (f10 l).
+  Proof.
+    intros l H. unfold l010_fix_line. destruct (trim_l is_blank l) as [|c r] eqn:E.
+    - apply trim_l_nil_iff in E. rewrite (all_blank_S1_nil l E H). exact I.
+    - unfold S1 in *. rewrite <- (take_trim_l is_blank l) in H. rewrite E in H. rewrite lastc_app_ne in H by discriminate.
+      destruct (lastc (c :: r)) as [d|] eqn:Ed; [|apply lastc_none in Ed; discriminate].
+      assert (Hl : lastc (l010_scan None false (c :: r)) = Some (wr d)) by (apply scan10_last; [exact Ed|apply not_blank_not_sp; exact H]).
+      rewrite lastc_app_ne; [rewrite Hl; rewrite is_blank_wr; exact H|]. intro En. rewrite En in Hl. discriminate.
+  Qed.
+
+  Lemma f10_keeps_S2 : forall l, S2 l -> S2 (f10 l).
+  Proof.
+    intros l H. unfold S2, l010_fix_line in *. destruct (trim_l is_blank l) as [|c r] eqn:E.
+    - apply trim_l_nil_iff in E. pose proof (l010_scan_blank l None false E) as Hb.
+      assert (Hl : take_l is_blank l = l).
+      { rewrite <- (take_trim_l is_blank l) at 2. apply trim_l_nil_iff in E. rewrite E. rewrite app_nil_r. reflexivity. }
+      rewrite Hl in H.
+      destruct (existsb is_tab (take_l is_blank (l010_scan None false l))) eqn:Et; [|reflexivity]. exfalso.
+      apply existsb_exists in Et. destruct Et as (x & Hx & Tx). apply take_l_incl in Hx. apply l010_scan_in in Hx.
+      destruct Hx as (d & Hd & Ex). subst. rewrite is_tab_wr in Tx.
+      assert (existsb is_tab l = true) by (apply existsb_exists; exists d; split; assumption). congruence.
+    - pose proof (trim_l_head _ _ _ _ E) as Hc. destruct (l010_scan_head c r Hc) as (s & Hs). rewrite Hs.
+      rewrite take_l_app_all by apply take_l_all. rewrite take_l_stop by (rewrite is_blank_wr; exact Hc).
+      rewrite app_nil_r. exact H.
+  Qed.
+
+  (* blank lines: with space, tab and newline being spaces, "all whitespace" is "all spaces" *)
+  Lemma wsc_sp : forall c, wsc c = spacec is_space c.
+  Proof.
+    intro c. unfold Lint.wsc. destruct (spacec is_space c) eqn:E; [reflexivity|]. cbn [orb].
+    destruct (is_blank c) eqn:Eb; [rewrite (blank_sp is_space sp32 sp9 c Eb) in E; discriminate|].
+    destruct (is_nl c) eqn:En; [rewrite (nl_sp is_space sp10 c En) in E; discriminate|reflexivity].
+  Qed.
+
+  Lemma blank_iff_all : forall l, blank l = forallb wsc l.
+  Proof.
+    intro l. unfold blank_line. destruct (trim_space is_space l) as [|c r] eqn:E.
+    - symmetry. apply trim_space_nil_ws. exact E.
+    - symmetry. apply not_true_is_false. intro H.
+      assert (Hs : forallb (spacec is_space) l = true).
+      { apply forallb_forall. intros x Hx. rewrite <- wsc_sp. rewrite forallb_forall in H. apply H. exact Hx. }
+      unfold trim_space in E. apply trim_l_nil_iff in Hs. rewrite Hs in E. discriminate.
+  Qed.
+
+  Lemma all_ws_ink : forall l, forallb wsc l = true <-> ink is_space l = [].
+  Proof.
+    induction l as [|c t IH]; [split; reflexivity|]. unfold Lint.ink in *. cbn [forallb filter]. destruct (wsc c); cbn [negb andb map].
+    - exact IH.
+    - split; discriminate.
+  Qed.
+
+  Lemma ink_f10 : forall l, no_nl l -> ink is_space (f10 l) = ink is_space l.
+  Proof.
+    intros l Hl. unfold l010_fix_line. destruct (trim_l is_blank l) as [|c rest] eqn:E.
+    - apply ink_l010_scan. exact Hl.
+    - rewrite ink_app. rewrite ink_l010_scan.
+      + rewrite <- E. rewrite <- ink_app. rewrite take_trim_l. reflexivity.
+      + intros x Hx. apply Hl. eapply trim_l_incl. rewrite E. exact Hx.
+  Qed.
+
+  Lemma f10_blank : forall l, no_nl l -> blank (f10 l) = blank l.
+  Proof.
+    intros l Hl. rewrite !blank_iff_all. pose proof (ink_f10 l Hl) as E.
+    destruct (forallb wsc l) eqn:A.
+    - apply all_ws_ink in A. rewrite A in E. apply all_ws_ink. exact E.
+    - apply not_true_is_false. intro B. apply all_ws_ink in B. rewrite B in E. symmetry in E. apply all_ws_ink in E. congruence.
+  Qed.
+
+  (* ---------- L007: the fixed line is related to the line character by character ---------- *)
+  Definition rel (c c' : ch) : Prop := c' = wr c \/ exists u, upper_ascii (cp c) = Some u /\ c' = asc u.
+
+  Lemma rel_wr : forall c c', rel c c' -> rel (wr c) c'.
+  Proof.
+    intros c c' [H|(u & H1 & H2)]; [left; rewrite wr_wr; exact H|right; exists u; rewrite cp_wr; split; assumption].
+  Qed.
+
+  Lemma conv_rel : forall w, (forall c, In c w -> wr c = c) -> Forall2 rel w (conv_word upper_ascii keywords w).
+  Proof.
+    intros w Hw. unfold conv_word, kw_of.
+    assert (Hid : Forall2 rel w w).
+    { clear -Hw. induction w as [|c w IH]; constructor; [left; symmetry; apply Hw; left; reflexivity|apply IH; intros x Hx; apply Hw; right; exact Hx]. }
+    destruct (all_some (map (fun c => upper_ascii (cp c)) w)) as [u|] eqn:E; [|exact Hid].
+    destruct (existsb (list_eqb u) keywords); [|exact Hid]. clear Hid Hw.
+    revert u E. induction w as [|c w IH]; intros u E; cbn in E; [inversion E; constructor|].
+    destruct (upper_ascii (cp c)) as [x|] eqn:Ex; [|discriminate].
+    destruct (all_some (map (fun c0 => upper_ascii (cp c0)) w)) as [r|] eqn:Er; [|discriminate].
+    inversion E; subst. cbn [map]. constructor; [right; exists x; split; [exact Ex|reflexivity]|apply IH; reflexivity].
+  Qed.
+
+  Notation scan7 := (l007_scan is_letter is_digit upper_ascii keywords).
+
+  Definition curfixed (cur : option (list ch)) : Prop := match cur with Some w => forall c, In c w -> wr c = c | None => True end.
+  Definition pre (cur : option (list ch)) : list ch := match cur with Some w => rev w | None => [] end.
+
+  Lemma Forall2_app_inv : forall {A B} (Rr : A -> B -> Prop) a1 a2 b1 b2, Forall2 Rr a1 b1 -> Forall2 Rr a2 b2 -> Forall2 Rr (a1 ++ a2) (b1 ++ b2).
+  Proof. intros. apply Forall2_app; assumption. Qed.
+
+  Lemma flush_rel : forall cur, curfixed cur ->
+    Forall2 rel (pre cur) (match cur with Some w => conv_word upper_ascii keywords (rev w) | None => [] end).
+  Proof.
+    intros [w|] H; [|constructor]. apply conv_rel. intros c Hc. apply H. apply in_rev. exact Hc.
+  Qed.
+
+  Lemma rel_mid : forall P c t out, Forall2 rel (P ++ wr c :: t) out -> Forall2 rel (P ++ c :: t) out.
+  Proof.
+    induction P as [|p P IHP]; intros c t out H; cbn [app] in *.
+    - inversion H as [|? ? ? ? Hh Ht]; subst. constructor; [|exact Ht].
+      destruct Hh as [Hh|(u & H1 & H2)]; [left; rewrite wr_wr in Hh; exact Hh|right; exists u; rewrite cp_wr in H1; split; assumption].
+    - inversion H as [|? ? ? ? Hh Ht]; subst. constructor; [exact Hh|apply IHP; exact Ht].
+  Qed.
+
+  Lemma scan7_rel : forall l,
+    (forall k, Forall2 rel l (scan7 (Some k) None l)) /\
+    (forall cur, curfixed cur -> Forall2 rel (pre cur ++ l) (scan7 None cur l)).
+  Proof.
+    induction l as [|c t [IHq IHn]]; split.
+    - intro k. constructor.
+    - intros cur H. cbn [l007_scan]. rewrite app_nil_r. apply flush_rel. exact H.
+    - intro k. cbn [l007_scan]. constructor; [left; reflexivity|]. destruct (cp c =? k); [apply (IHn None I)|apply IHq].
+    - intros cur H. cbn [l007_scan]. destruct (is_quote c).
+      + apply Forall2_app; [apply flush_rel; exact H|]. constructor; [left; reflexivity|apply IHq].
+      + destruct (word_start is_letter c || match cur with Some _ => true | None => false end && is_digit (cp c)).
+        * set (cur' := Some (wr c :: match cur with Some w => w | None => [] end)).
+          assert (Hc' : curfixed cur').
+          { unfold cur', curfixed. intros x [Hx|Hx]; [subst; apply wr_wr|]. destruct cur as [w|]; [apply H; exact Hx|destruct Hx]. }
+          specialize (IHn cur' Hc'). unfold cur', pre in IHn. cbn [rev] in IHn. rewrite <- app_assoc in IHn. cbn [app] in IHn.
+          apply rel_mid. destruct cur as [w|]; exact IHn.
+        * apply Forall2_app; [apply flush_rel; exact H|]. constructor; [left; reflexivity|apply (IHn None I)].
+  Qed.
+
+  Lemma f7_rel : forall l, Forall2 rel l (f7 l).
+  Proof. intro l. unfold l007_fix_line. destruct (scan7_rel l) as [_ H]. exact (H None I). Qed.
+
+  (* what the relation preserves *)
+  Lemma rel_cp_cases : forall c c', rel c c' -> cp c' = cp c \/ exists u, upper_ascii (cp c) = Some u /\ cp c' = u.
+  Proof. intros c c' [H|(u & H1 & H2)]; subst; [left; apply cp_wr|right; exists u; split; [exact H1|reflexivity]]. Qed.
+
+  Lemma rel_blank : forall c c', rel c c' -> is_blank c' = is_blank c.
+  Proof.
+    intros c c' [H|(u & H1 & H2)]; subst; [apply is_blank_wr|].
+    destruct (up_nows _ _ H1) as (_ & A & B & _). destruct (up_nows _ _ (up_idem _ _ H1)) as (_ & A' & B' & _).
+    unfold is_blank, is_sp, is_tab, asc. cbn [cp].
+    apply N.eqb_neq in A. apply N.eqb_neq in B. apply N.eqb_neq in A'. apply N.eqb_neq in B'. rewrite A, B, A', B'. reflexivity.
+  Qed.
+  Lemma rel_tab : forall c c', rel c c' -> is_tab c' = is_tab c.
+  Proof.
+    intros c c' [H|(u & H1 & H2)]; subst; [apply is_tab_wr|].
+    destruct (up_nows _ _ H1) as (_ & _ & B & _). destruct (up_nows _ _ (up_idem _ _ H1)) as (_ & _ & B' & _).
+    unfold is_tab, asc. cbn [cp]. apply N.eqb_neq in B. apply N.eqb_neq in B'. rewrite B, B'. reflexivity.
+  Qed.
+  Lemma rel_sp : forall c c', rel c c' -> is_sp c' = is_sp c.
+  Proof.
+    intros c c' [H|(u & H1 & H2)]; subst; [apply is_sp_wr|].
+    destruct (up_nows _ _ H1) as (_ & A & _). destruct (up_nows _ _ (up_idem _ _ H1)) as (_ & A' & _).
+    unfold is_sp, asc. cbn [cp]. apply N.eqb_neq in A. apply N.eqb_neq in A'. rewrite A, A'. reflexivity.
+  Qed.
+  Lemma rel_quote : forall c c', rel c c' -> is_quote c' = is_quote c /\ (is_quote c = true -> cp c' = cp c).
+  Proof.
+    intros c c' [H|(u & H1 & H2)]; subst; [split; [apply is_quote_wr|intros _; apply cp_wr]|].
+    destruct (up_keynoquote _ _ H1) as (A & B). destruct (up_noquote _ _ H1) as (A' & B' & _).
+    assert (Q : is_quote c = false) by (unfold is_quote; apply N.eqb_neq in A; apply N.eqb_neq in B; rewrite A, B; reflexivity).
+    assert (Q' : is_quote (asc u) = false) by (unfold is_quote, asc; cbn [cp]; apply N.eqb_neq in A'; apply N.eqb_neq in B'; rewrite A', B'; reflexivity).
+    split; [rewrite Q, Q'; reflexivity|rewrite Q; discriminate].
+  Qed.
+  Lemma rel_eqk : forall c c' k, rel c c' -> (k = 39 \/ k = 34) -> (cp c' =? k) = (cp c =? k).
+  Proof.
+    intros c c' k [H|(u & H1 & H2)] Hk; subst c'; [rewrite cp_wr; reflexivity|].
+    destruct (up_keynoquote _ _ H1) as (A & B). destruct (up_noquote _ _ H1) as (A' & B' & _). cbn [asc cp].
+    destruct Hk; subst k; [apply N.eqb_neq in A; apply N.eqb_neq in A'|apply N.eqb_neq in B; apply N.eqb_neq in B']; congruence.
+  Qed.
+  Lemma rel_wsc : forall c c', is_nl c = false -> rel c c' -> wsc c' = wsc c.
+  Proof.
+    intros c c' Hn [H|(u & H1 & H2)]; subst; [apply wsc_wr; exact Hn|].
+    rewrite (up_not_wsc is_space upper_ascii up_nows c u H1).
+    apply (up_not_wsc is_space upper_ascii up_nows (asc u) u). cbn [asc cp]. exact (up_idem _ _ H1).
+  Qed.
+  Lemma rel_wrfix : forall c c', rel c c' -> wr c' = c'.
+  Proof. intros c c' [H|(u & H1 & H2)]; subst; [apply wr_wr|reflexivity]. Qed.
+
+  Lemma Forall2_lastc : forall {A B} (Rr : A -> B -> Prop) a b, Forall2 Rr a b ->
+    match lastc a, lastc b with Some x, Some y => Rr x y | None, None => True | _, _ => False end.
+  Proof.
+    intros A B Rr a b H. induction H as [|x y a b Hxy Hab IH]; [exact I|]. inversion Hab; subst; [exact Hxy|].
+    rewrite !lastc_cons by discriminate. exact IH.
+  Qed.
+
+  (* (c1) *)
+  Lemma f7_keeps_S1 : forall l, S1 l -> S1 (f7 l).
+  Proof.
+    intros l H. unfold S1 in *. pose proof (Forall2_lastc rel l (f7 l) (f7_rel l)) as R.
+    destruct (lastc l) as [c|], (lastc (f7 l)) as [c'|]; try exact I; try contradiction.
+    rewrite (rel_blank c c' R). exact H.
+  Qed.
+
+  Lemma rel_take_trim : forall a b, Forall2 rel a b ->
+    Forall2 rel (take_l is_blank a) (take_l is_blank b) /\ Forall2 rel (trim_l is_blank a) (trim_l is_blank b).
+  Proof.
+    intros a b H. induction H as [|x y a b Hxy Hab [IH1 IH2]]; [split; constructor|].
+    cbn [take_l trim_l]. rewrite (rel_blank x y Hxy). destruct (is_blank x).
+    - split; [constructor; assumption|exact IH2].
+    - split; [constructor|constructor; assumption].
+  Qed.
+
+  (* (c2) *)
+  Lemma f7_keeps_S2 : forall l, S2 l -> S2 (f7 l).
+  Proof.
+    intros l H. unfold S2 in *. destruct (rel_take_trim l (f7 l) (f7_rel l)) as [R _].
+    revert H. induction R as [|x y a b Hxy Hab IH]; intro H; [reflexivity|]. cbn [existsb] in *.
+    rewrite (rel_tab x y Hxy). apply orb_false_elim in H. destruct H as [H1 H2]. rewrite H1. cbn [orb]. apply IH. exact H2.
+  Qed.
+
+  (* (c3) *)
+  Lemma f7_blank : forall l, no_nl l -> blank (f7 l) = blank l.
+  Proof.
+    intros l Hl. rewrite !blank_iff_all. pose proof (f7_rel l) as R. revert Hl. induction R as [|x y a b Hxy Hab IH]; intro Hl; [reflexivity|].
+    cbn [forallb]. rewrite (rel_wsc x y (Hl x (or_introl eq_refl)) Hxy). f_equal. apply IH. intros z Hz. apply Hl. right. exact Hz.
+  Qed.
+
+  (* (c4) stability under the L010 line rewriter is kept *)
+  Lemma scan10_len : forall l q ps, (length (l010_scan q ps l) <= length l)%nat.
+  Proof.
+    induction l as [|c t IH]; intros q ps; [cbn; lia|]. cbn [l010_scan]. destruct q as [k|]; [cbn [length]; specialize (IH (if cp c =? k then None else Some k) ps); lia|].
+    destruct (is_quote c); [cbn [length]; specialize (IH (Some (cp c)) false); lia|]. destruct (is_sp c).
+    - destruct ps; cbn [app length]; [specialize (IH None true); lia|specialize (IH None true); lia].
+    - cbn [length]. specialize (IH None false). lia.
+  Qed.
+
+  Definition qok (q : option N) : Prop := match q with Some k => k = 39 \/ k = 34 | None => True end.
+
+  Lemma is_quote_k : forall c, is_quote c = true -> cp c = 39 \/ cp c = 34.
+  Proof. intros c H. unfold is_quote in H. apply orb_prop in H. destruct H as [H|H]; apply N.eqb_eq in H; auto. Qed.
+
+  Lemma scan10_rel : forall l l', Forall2 rel l l' -> forall q ps, qok q -> l010_scan q ps l = l -> l010_scan q ps l' = l'.
+  Proof.
+    intros l l' H. induction H as [|c c' t t' Hc Ht IH]; intros q ps Hq E; [reflexivity|].
+    cbn [l010_scan] in *. destruct q as [k|].
+    - injection E as E1 E2. rewrite (rel_eqk c c' k Hc Hq). rewrite (rel_wrfix c c' Hc). f_equal.
+      apply IH; [destruct (cp c =? k); [exact I|exact Hq]|exact E2].
+    - destruct (rel_quote c c' Hc) as (Q1 & Q2). rewrite Q1. destruct (is_quote c) eqn:Eq.
+      + injection E as E1 E2. rewrite (rel_wrfix c c' Hc). f_equal. rewrite (Q2 eq_refl).
+        apply IH; [apply is_quote_k; exact Eq|exact E2].
+      + rewrite (rel_sp c c' Hc). destruct (is_sp c).
+        * destruct ps; cbn [app] in *.
+          -- exfalso. pose proof (scan10_len t None true) as L. rewrite E in L. cbn [length] in L. lia.
+          -- injection E as E1 E2. rewrite (rel_wrfix c c' Hc). f_equal. apply IH; [exact I|exact E2].
+        * injection E as E1 E2. rewrite (rel_wrfix c c' Hc). f_equal. apply IH; [exact I|exact E2].
+  Qed.
+
+  Lemma Forall2_nil_iff : forall {A B} (Rr : A -> B -> Prop) a b, Forall2 Rr a b -> (a = [] <-> b = []).
+  Proof. intros A B Rr a b H. inversion H; subst; split; intro; (reflexivity || discriminate). Qed.
+
+  Lemma f7_keeps_S10 : forall l, f10 l = l -> f10 (f7 l) = f7 l.
+  Proof.
+    intros l H. pose proof (f7_rel l) as R. destruct (rel_take_trim l (f7 l) R) as [R1 R2].
+    unfold l010_fix_line in *. destruct (trim_l is_blank l) as [|c r] eqn:E; destruct (trim_l is_blank (f7 l)) as [|c' r'] eqn:E';
+      try (exfalso; inversion R2; fail).
+    - apply (scan10_rel l (f7 l) R None false I H).
+    - rewrite <- (take_trim_l is_blank l) in H at 2. rewrite E in H. apply app_inv_head in H.
+      rewrite (scan10_rel (c :: r) (c' :: r') R2 None false I H). rewrite <- E'. apply take_trim_l.
+  Qed.
+
+  (* ---------- texts ---------- *)
+  Lemma per_line_fixed : forall f t, Forall (fun l => f l = l) (split_nl t) -> per_line f t = t.
+  Proof.
+    intros f t H. unfold per_line. rewrite <- (join_split t) at 2. f_equal.
+    induction H as [|l r Hl Hr IH]; [reflexivity|]. cbn [map]. rewrite Hl, IH. reflexivity.
+  Qed.
+
+  Lemma bounded_ext : forall mx a b cnt, map blank a = map blank b -> bounded is_space mx cnt a = bounded is_space mx cnt b.
+  Proof.
+    intros mx. induction a as [|x a IH]; intros b cnt H; destruct b as [|y b]; try discriminate; [reflexivity|].
+    cbn [map] in H. inversion H as [[H1 H2]]. cbn [bounded]. rewrite H1. destruct (blank y); [f_equal|]; apply IH; exact H2.
+  Qed.
+
+  Notation F1 := l001_fix.
+  Notation F2 := l002_fix.
+  Notation F3 := (l003_fix is_space).
+  Notation F10 := l010_fix.
+  Notation F7 := (l007_fix is_letter is_digit upper_ascii keywords).
+
+  Lemma F3_fixed : forall t, bounded is_space 1 0 (split_nl t) = true -> F3 t = t.
+  Proof.
+    intros t H. unfold l003_fix, l003_fix_mx. fold (l003_lines is_space 1 (split_nl t)). rewrite l003_lines_eq.
+    rewrite pass_fixed by exact H. apply join_split.
+  Qed.
+
+  Theorem cli_fix_idempotent : forall t,
+    cli_fix is_letter is_digit is_space upper_ascii keywords (cli_fix is_letter is_digit is_space upper_ascii keywords t)
+    = cli_fix is_letter is_digit is_space upper_ascii keywords t.
+  Proof.
+    intro t. unfold cli_fix.
+    set (t1 := F1 t). set (t2 := F2 t1). set (t3 := F3 t2). set (t4 := F10 t3). set (u := F7 t4).
+    (* the lines of each stage *)
+    assert (K7 : forall l, no_nl l -> no_nl (f7 l)) by (apply l007_line_keeps; assumption).
+    assert (L1 : split_nl t1 = map f1 (split_nl t)) by (apply (split_per_line f1 t l001_line_keeps)).
+    assert (L2 : split_nl t2 = map f2 (split_nl t1)) by (apply (split_per_line f2 t1 l002_line_keeps)).
+    assert (L3 : split_nl t3 = l003_pass is_space 1 0 (split_nl t2)) by (apply l003_split_fix; lia).
+    assert (L4 : split_nl t4 = map f10 (split_nl t3)) by (apply (split_per_line f10 t3 l010_line_keeps)).
+    assert (L5 : split_nl u = map f7 (split_nl t4)) by (apply (split_per_line f7 t4 K7)).
+    (* stage 1, 2 *)
+    assert (A1 : Forall S1 (split_nl t2)).
+    { rewrite L2, L1. apply Forall_forall. intros l Hl. apply in_map_iff in Hl. destruct Hl as (l1 & E1 & Hl1). subst.
+      apply in_map_iff in Hl1. destruct Hl1 as (l0 & E0 & _). subst. apply f2_keeps_S1. apply f1_S1. }
+    assert (A2 : Forall S2 (split_nl t2)).
+    { rewrite L2. apply Forall_forall. intros l Hl. apply in_map_iff in Hl. destruct Hl as (l1 & E1 & _). subst. apply f2_S2. }
+    (* stage 3 *)
+    assert (B1 : Forall S1 (split_nl t3)) by (rewrite L3; apply Forall_forall; intros l Hl; apply pass_incl in Hl; rewrite Forall_forall in A1; apply A1; exact Hl).
+    assert (B2 : Forall S2 (split_nl t3)) by (rewrite L3; apply Forall_forall; intros l Hl; apply pass_incl in Hl; rewrite Forall_forall in A2; apply A2; exact Hl).
+    assert (B3 : bounded is_space 1 0 (split_nl t3) = true) by (rewrite L3; exact (pass_bounded is_space 1 (split_nl t2) 0%nat)).
+    (* stage 4 *)
+    pose proof (split_no_nl t3) as N3. pose proof (split_no_nl t4) as N4.
+    assert (C1 : Forall S1 (split_nl t4)).
+    { rewrite L4. apply Forall_forall. intros l Hl. apply in_map_iff in Hl. destruct Hl as (l1 & E1 & Hl1). subst.
+      apply f10_keeps_S1. rewrite Forall_forall in B1. apply B1. exact Hl1. }
+    assert (C2 : Forall S2 (split_nl t4)).
+    { rewrite L4. apply Forall_forall. intros l Hl. apply in_map_iff in Hl. destruct Hl as (l1 & E1 & Hl1). subst.
+      apply f10_keeps_S2. rewrite Forall_forall in B2. apply B2. exact Hl1. }
+    assert (C3 : bounded is_space 1 0 (split_nl t4) = true).
+    { rewrite <- B3. apply bounded_ext. rewrite L4. rewrite map_map. apply map_ext_in. intros l Hl. apply f10_blank.
+      rewrite Forall_forall in N3. apply N3. exact Hl. }
+    assert (C10 : Forall (fun l => f10 l = l) (split_nl t4)).
+    { rewrite L4. apply Forall_forall. intros l Hl. apply in_map_iff in Hl. destruct Hl as (l1 & E1 & _). subst. apply l010_line_idem. }
+    (* stage 5 *)
+    assert (D1 : Forall (fun l => f1 l = l) (split_nl u)).
+    { rewrite L5. apply Forall_forall. intros l Hl. apply in_map_iff in Hl. destruct Hl as (l1 & E1 & Hl1). subst.
+      apply S1_fixed. apply f7_keeps_S1. rewrite Forall_forall in C1. apply C1. exact Hl1. }
+    assert (D2 : Forall (fun l => f2 l = l) (split_nl u)).
+    { rewrite L5. apply Forall_forall. intros l Hl. apply in_map_iff in Hl. destruct Hl as (l1 & E1 & Hl1). subst.
+      apply S2_fixed. apply f7_keeps_S2. rewrite Forall_forall in C2. apply C2. exact Hl1. }
+    assert (D3 : bounded is_space 1 0 (split_nl u) = true).
+    { rewrite <- C3. apply bounded_ext. rewrite L5. rewrite map_map. apply map_ext_in. intros l Hl. apply f7_blank.
+      rewrite Forall_forall in N4. apply N4. exact Hl. }
+    assert (D10 : Forall (fun l => f10 l = l) (split_nl u)).
+    { rewrite L5. apply Forall_forall. intros l Hl. apply in_map_iff in Hl. destruct Hl as (l1 & E1 & Hl1). subst.
+      apply f7_keeps_S10. rewrite Forall_forall in C10. apply C10. exact Hl1. }
+    assert (D7 : Forall (fun l => f7 l = l) (split_nl u)).
+    { rewrite L5. apply Forall_forall. intros l Hl. apply in_map_iff in Hl. destruct Hl as (l1 & E1 & _). subst.
+      apply (l007_line_idem is_letter is_digit upper_ascii keywords up_letter up_noquote up_idem). }
+    (* the output is a fixed point of every stage *)
+    assert (E1 : F1 u = u) by (apply (per_line_fixed f1 u D1)).
+    rewrite E1.
+    assert (E2 : F2 u = u) by (apply (per_line_fixed f2 u D2)).
+    rewrite E2. rewrite (F3_fixed u D3).
+    assert (E10 : F10 u = u) by (apply (per_line_fixed f10 u D10)).
+    rewrite E10. apply (per_line_fixed f7 u D7).
+  Qed.
+End Pipeline.
